@@ -21,7 +21,7 @@ def run(tier, seed):
             # long random histories: equal, zero, sub-ms and huge durations, clock jumps, early/late wake-ups
             dict(name="C01_rand", consts=ec.consts({1, 3, 4, 5}, T_ACTS | {"feed", "drain", "flags"}, 30 if q else 50,
                                                    durs=(0, 1, 2, 3, H)),
-                 simulate=120 if q else 1500, depth=800,
+                 simulate=120 if q else 500, depth=800,
                  ticks=(1000, 7000, 1000000000) if q else (1000, 7000, 1000000, 1000000000)),
             # directed heap family: every permutation of six distinct deadlines, delete one, add two, fire all
             dict(name="C01_heap_perm", consts=ec.consts({11, 12, 13, 14, 15, 16, 17, 18}, {"add", "del", "loop", "flags", "heappat"}, 10,
@@ -30,7 +30,7 @@ def run(tier, seed):
             # many plain timers with spread deadlines: removals from the middle of the heap, re-adds (heap shape)
             dict(name="C01_heap", consts=ec.consts({3, 4, 11, 12, 13, 14, 15, 16}, {"add", "del", "rmt", "loop", "adv", "pol"}, 20 if q else 34,
                                                    durs=(1, 2, 3, 10, 11, 12, 20, 21), nx=6, maxiter=8),
-                 simulate=100 if q else 1200, depth=800),
+                 simulate=100 if q else 400, depth=800),
         ] + ([] if q else [
             dict(name="C01_rand_poll", consts=ec.consts({1, 3, 4, 5}, T_ACTS | {"feed", "drain", "flags"}, 30, durs=(0, 1, 2, 3, H)),
                  simulate=400, depth=800, ticks=(1000000,), backends=("poll",)),
